@@ -434,7 +434,7 @@ def suite_engine_fn(ctx: Ctx, scale: float = 1.0) -> None:
     rng = ctx.rng
     reqs: List[Any] = []
     pend: List[Any] = []
-    n = int(ctx.budget(700, 16000) * scale)
+    n = int(ctx.budget(2200, 16000) * scale)
     # fixed witnesses first (the known findings and the boundary cases of the property text)
     fixed = [
         ("str", ["x", "y", "abc", "b"], "regex", {"value": "b"}, "valid"),
@@ -488,7 +488,7 @@ def suite_apply_fn(ctx: Ctx, scale: float = 1.0) -> None:
     rng = ctx.rng
     reqs: List[Any] = []
     pend: List[Any] = []
-    n = int(ctx.budget(250, 6000) * scale)
+    n = int(ctx.budget(700, 6000) * scale)
     for i in range(n):
         nrows = rng.choice([0, 2, 4, 6, 8])
         names = ["x", "y", "z"]
@@ -596,7 +596,9 @@ def transitions(zones: List[str], rng: Any, k: int) -> List[dtm.datetime]:
     import zoneinfo
 
     out: List[dtm.datetime] = []
-    for zn in rng.sample(zones, min(k, len(zones))):
+    dst = [z for z in ["Europe/Berlin", "America/New_York", "Australia/Lord_Howe", "Pacific/Chatham", "America/St_Johns", "Europe/London", "America/Sao_Paulo", "Asia/Tehran",
+                       "Africa/Casablanca", "Pacific/Apia", "America/Havana", "Asia/Kathmandu"] if z in zones]  # fmt: skip
+    for zn in dst[: max(4, k // 2)] + rng.sample(zones, min(k, len(zones))):
         tz = zoneinfo.ZoneInfo(zn)
         year = rng.choice([1975, 1999, 2010, 2021, 2024])
         t = dtm.datetime(year, 1, 1, tzinfo=dtm.timezone.utc)
@@ -627,7 +629,7 @@ def suite_time_fn(ctx: Ctx, scale: float = 1.0) -> None:
     rng = ctx.rng
     zones = sorted(zoneinfo.available_timezones())
     gf = GlobalFilter()
-    n = int(ctx.budget(1500, 30000) * scale)
+    n = int(ctx.budget(3000, 30000) * scale)
     dts = transitions(zones, rng, 12 if ctx.quick else 80) + [gen_aware(rng, zones) for _ in range(n)]
     reqs, impls, cases = [], [], []
     for d in dts:
@@ -753,13 +755,17 @@ def gen_domain_filter(rng: Any, col: List[Any], ct: str, hashable: bool) -> Tupl
 
 def suite_e2e(ctx: Ctx, scale: float = 1.0) -> None:
     rng = ctx.rng
-    n = int(ctx.budget(36, 500) * scale)
+    n = int(ctx.budget(110, 700) * scale)
     reqs: List[Any] = []
     pend: List[Any] = []
     fixed = [
         ("int", [1, 2, None, 3, 2, 5], [("x", "range", {"min": 2, "max": 3, "max_exclusive": True})]),
         ("str", ["x", "y", "abc", "b"], [("x", "regex", {"value": "b"})]),
         ("int", [1, 2, 3, 4], [("x", "min", {"value": 2}), ("x", "max", {"value": 3})]),
+        ("str", ["A", "B", None, "C"], [("x", "categorical_inclusion", {"values": ["A", "B"]})]),
+        ("str", ["A", "B", None, "C"], [("x", "categorical_inclusion", {"values": ("A", "B")})]),
+        ("float", [2.0, 2.5, None], [("x", "categorical_inclusion", {"values": (2.5, None)})]),
+        ("int", [1, 2, 3], [("x", "min", {"value": 5})]),
     ]
     plan: List[Any] = [(ct, col, fl, "both") for ct, col, fl in fixed]
     for _ in range(n):
@@ -770,6 +776,15 @@ def suite_e2e(ctx: Ctx, scale: float = 1.0) -> None:
         for _ in range(k):
             ft, p = gen_domain_filter(rng, col, ct, rng.random() < 0.85)
             fl.append(("x", ft, p))
+        if rng.random() < 0.8:
+            # mostly keep at least one row (an empty result fails on PythonDict for an unrelated reason, see findings)
+            for _try in range(6):
+                keep = set(range(len(col)))
+                for _, ft, p in fl:
+                    keep &= set(oracle_rows(col, ft, p))
+                if keep:
+                    break
+                fl = [("x",) + gen_domain_filter(rng, col, ct, True) for _ in range(rng.choice([1, 1, 2]))]
         plan.append((ct, col, fl, rng.choice(["both", "both", "g_only_y", "none_exposes", "h_too"])))
     for ct, col, fl, shape in plan:
         nrows = len(col)
@@ -863,7 +878,7 @@ def suite_e2e_time(ctx: Ctx, scale: float = 1.0) -> None:
 
     rng = ctx.rng
     zones = sorted(zoneinfo.available_timezones())
-    n = int(ctx.budget(10, 150) * scale)
+    n = int(ctx.budget(30, 200) * scale)
     for _ in range(n):
         base = dtm.datetime(rng.randint(1990, 2035), rng.randint(1, 12), rng.randint(1, 28), rng.randint(0, 23), rng.choice([0, 30]), 0, tzinfo=dtm.timezone.utc)
         step = rng.choice([1, 60, 1800, 3600, 86400])
